@@ -283,9 +283,14 @@ Definition judge (args : list Z) : list Z :=
 (* ---- well-formed cases (hypothesis of the refinement theorem Props/C11.v: c11_judge_accepts_model) ----
    op codes are the documented ones (v > 0 Push v, 0 Pop, -1 Len, -10 PopWait(-1), -100 - n timed PopWait; this excludes
    -9..-2 and -99..-11, which run_case reads as Pop and the judge as Len), schedule entries are not negative (a thread id
-   that is too large is skipped by the run), and the run reaches quiescence within the completion tail: no call is in
-   flight at the end (a blocking PopWait(-1) that never finds a value keeps spinning and is excluded by this clause). *)
+   that is too large is skipped by the run), and EITHER no program contains the blocking PopWait(-1) and every timed
+   PopWait makes at most 3 further tries (codes -103..-100; the harness uses -102..-100) OR the run reaches quiescence
+   within the completion tail: no call is in flight at the end (a blocking PopWait(-1) that never finds a value keeps
+   spinning and is excluded by this clause). *)
 Definition op_ok (x : Z) : bool := (-1 <=? x) || (x =? -10) || (x <=? -100).
+(* programs for which quiescence is a theorem (Proofs/SyncListJudgeLive.v): no blocking PopWait(-1), timed PopWait with at
+   most 3 further tries *)
+Definition op_live (x : Z) : bool := (-1 <=? x) || ((-103 <=? x) && (x <=? -100)).
 Definition init_rts (progs : list (list Z)) : list rthread :=
   map (fun pr => {| r_prog := pr; r_wait := 0; r_left := 0; r_yield := false; r_res := [] |}) progs.
 Definition quiescent (c : config) (rts : list rthread) : bool :=
@@ -296,8 +301,10 @@ Definition wf_case (args : list Z) : bool :=
       let n := Z.to_nat nt in
       let (progs, r1) := get_lists n r in
       let (sched, _) := get_list r1 in
-      let '(c, rts', _) := go (seq_state (Z.to_nat npre) n) (init_rts progs) (sched ++ completion n progs) [] in
-      forallb (forallb op_ok) progs && forallb (fun t => 0 <=? t) sched && quiescent c rts'
+      forallb (forallb op_ok) progs && forallb (fun t => 0 <=? t) sched &&
+      (forallb (forallb op_live) progs ||
+       let '(c, rts', _) := go (seq_state (Z.to_nat npre) n) (init_rts progs) (sched ++ completion n progs) [] in
+       quiescent c rts')
   | _ => false
   end.
 
